@@ -1000,10 +1000,13 @@ static size_t ZSTD_decompressFrame(ZSTD_DCtx* dctx,
         dctx->fParams.blockSizeMax = MIN(dctx->fParams.blockSizeMax, (unsigned)dctx->maxBlockSizeParam);
 
     /* Loop on each block */
-    while (1) {
+    while (1)
+    ZSTD_VERIF_LOOP(ZSTD_VERIF_DFRAME_LOOP(dctx, ip, istart, op, ostart, remainingSrcSize, *srcSizePtr, dstCapacity))
+    {
         BYTE* oBlockEnd = oend;
         size_t decodedSize;
         blockProperties_t blockProperties;
+        ZSTD_VERIF_GHOST(ZSTD_VERIF_REBASE(ip, istart); ZSTD_VERIF_REBASE(op, ostart);)
         size_t const cBlockSize = ZSTD_getcBlockSize(ip, remainingSrcSize, &blockProperties);
         if (ZSTD_isError(cBlockSize)) return cBlockSize;
 
